@@ -48,6 +48,10 @@ fn saddr(ia: IsdAsn, k: u8) -> sciparse::address::addr::ScionAddr {
     ScionIpAddr::new(ia, host_ip(k)).into()
 }
 
+pub fn scmp_checksum_ok_pub(b: &[u8]) -> Option<bool> {
+    scmp_checksum_ok(b)
+}
+
 /// Independent Internet checksum over the SCION pseudo header and the upper-layer payload (as transmitted).
 fn scmp_checksum_ok(b: &[u8]) -> Option<bool> {
     let h = refrouter::parse_hdr(b)?;
@@ -114,6 +118,10 @@ pub fn run_c14(ctx: &mut RunCtx) -> RunResult {
     // a third of the runs exercise the endhost side: the socket receive loop over a simulated underlay
     if ctx.ch.chance(1, 3) {
         return crate::sock::run_sock(ctx);
+    }
+    // a sixth of the rest: the SNAP gateway's SCMP builder under a hostile tunnel peer
+    if ctx.ch.chance(1, 6) {
+        return crate::gw::run_gateway(ctx);
     }
     let mut w = topo::draw(ctx);
     let n = w.m.ases.len();
